@@ -329,11 +329,26 @@ def Op.touches (E : Env α) (op : Op α) (id : Ident) : Bool :=
   | .compdat r => r.targets E.headI E.headJ id
   | .wpimult _ s => s.wpimultGlobal || s.matchesIdent id
   | .welopen _ s => !s.welopenWellOnly && s.matchesIdent id
+  | .complump _ s => s.matchesIdent id
   | .endStep => false
 
-theorem step_idPrefix (E : Env α) (hE : E.ord = .INPUT) (w : WellConns α) (op : Op α) :
+/-- COMPLUMP renumbers completions by design; the identity-preservation theorems are about
+histories of the property's own operations. -/
+def Op.isLump : Op α → Bool
+  | .complump _ _ => true
+  | _ => false
+
+theorem complumpSel_frame (n : Int) (s : LumpSel) (cs : List (Conn α)) (m : Nat) (c : Conn α)
+    (h : cs[m]? = some c) (hs : s.matchesIdent c.ident = false) : (complumpSel n s cs)[m]? = some c := by
+  unfold complumpSel
+  rw [List.getElem?_map, h]
+  simp [hs]
+
+theorem step_idPrefix (E : Env α) (hE : E.ord = .INPUT) (w : WellConns α) (op : Op α)
+    (hl : op.isLump = false) :
     IdPrefix w.conns (step E w op).conns := by
   cases op with
+  | complump n s => simp [Op.isLump] at hl
   | compdat r =>
     simp only [step, hE, reorder]
     exact loadCompdat_idPrefix _ _ _ _ _ _ _
@@ -358,13 +373,15 @@ theorem step_idPrefix (E : Env α) (hE : E.ord = .INPUT) (w : WellConns α) (op 
 
 /-- Order, completion numbers, sort values, segments and the number of the connections
 present at any time are preserved by every history. -/
-theorem run_idPrefix (E : Env α) (hE : E.ord = .INPUT) (ops : List (Op α)) (w : WellConns α) :
+theorem run_idPrefix (E : Env α) (hE : E.ord = .INPUT) (ops : List (Op α)) (w : WellConns α)
+    (hl : ∀ op ∈ ops, op.isLump = false) :
     IdPrefix w.conns (run E ops w).conns := by
   induction ops generalizing w with
   | nil => exact IdPrefix.refl _
   | cons op ops ih =>
     unfold run
-    exact IdPrefix.trans (step_idPrefix E hE w op) (ih _)
+    exact IdPrefix.trans (step_idPrefix E hE w op (hl op List.mem_cons_self))
+      (ih _ (fun op' h' => hl op' (List.mem_cons_of_mem _ h')))
 
 theorem step_frame (E : Env α) (hE : E.ord = .INPUT) (w : WellConns α) (hp : w.pending = none) (op : Op α)
     (m : Nat) (c : Conn α) (h : w.conns[m]? = some c) (ht : op.touches E c.ident = false) :
@@ -389,6 +406,10 @@ theorem step_frame (E : Env α) (hE : E.ord = .INPUT) (w : WellConns α) (hp : w
         · rfl
         · simp [hm] at ht; exact absurd ht hw
       exact ⟨welopenSel_frame st s _ m c h this, hp⟩
+  | complump n s =>
+    simp only [Op.touches] at ht
+    simp only [step, hE, reorder]
+    exact ⟨complumpSel_frame n s _ m c h ht, hp⟩
   | endStep =>
     simp only [step, hp]
     exact ⟨h, trivial⟩
